@@ -245,6 +245,31 @@ MUTANTS = [
          "    static void run(const Range& range, const Body& body, Partitioner& partitioner, task_group_context& context) {\n        {")]),
     dict(name='c05-pool-pop-without-run', prop='C05', clause='D3', edits=[
         (PT_H, "                start.run_body( range_pool.back() );\n                range_pool.pop_back();", "                if (range_pool.size() < 7) start.run_body( range_pool.back() );\n                range_pool.pop_back();")]),
+    # ---------------------------------------------------------------- C06
+    dict(name='c06-join-swapped', prop='C06', clause='D1', edits=[
+        (PR_H, "            left_body.join(*zombie_space.begin());", "            zombie_space.begin()->join(left_body);")]),
+    dict(name='c06-det-join-swapped', prop='C06', clause='D1', edits=[
+        (PR_H, "            left_body.join(right_body);", "            right_body.join(left_body);")]),
+    dict(name='c06-lambda-join-swapped', prop='C06', clause='D1', edits=[
+        (PR_H, "        my_value = tbb::detail::invoke(my_reduction, std::move(my_value), std::move(rhs.my_value));",
+         "        my_value = tbb::detail::invoke(my_reduction, std::move(rhs.my_value), std::move(my_value));")]),
+    dict(name='c06-lambda-body-drops-value', prop='C06', clause='D1', edits=[
+        (PR_H, "        my_value = tbb::detail::invoke(my_real_body, range, std::move(my_value));",
+         "        my_value = tbb::detail::invoke(my_real_body, range, Value(my_identity_element));")]),
+    dict(name='c06-lazy-split-left-child', prop='C06', clause='D2', edits=[
+        (PR_H, "    if( is_right_child && my_parent->m_ref_count.load(std::memory_order_acquire) == 2 ) {",
+         "    if( my_parent->m_ref_count.load(std::memory_order_acquire) == 2 ) {")]),
+    dict(name='c06-lazy-split-relaxed', prop='C06', clause='D2', edits=[
+        (PR_H, "    if( is_right_child && my_parent->m_ref_count.load(std::memory_order_acquire) == 2 ) {",
+         "    if( is_right_child && my_parent->m_ref_count.load(std::memory_order_relaxed) == 2 ) {")]),
+    dict(name='c06-det-accepts-auto', prop='C06', clause='D3', edits=[
+        (PR_H, "//! Parallel iteration with deterministic reduction and static partitioner.",
+         "template<typename Range, typename Body>\n    __TBB_requires(tbb_range<Range> && parallel_reduce_body<Body, Range>)\nvoid parallel_deterministic_reduce(const Range& range, Body& body, const auto_partitioner&) {\n    parallel_reduce(range, body, auto_partitioner());\n}\n//! Parallel iteration with deterministic reduction and static partitioner.")]),
+    dict(name='c06-scan-final-twice', prop='C06', clause='D4', edits=[
+        ('include/oneapi/tbb/parallel_scan.h', "        if( m_is_final )\n            m_body(m_range, final_scan_tag());\n        else if( m_sum_slot )",
+         "        if( m_is_final )\n            m_body(m_range, final_scan_tag());\n        if( m_sum_slot )")]),
+    dict(name='c06-sort-direct-write', prop='C06', clause='D5', edits=[
+        ('include/oneapi/tbb/parallel_sort.h', "        if( m != 0 ) std::iter_swap(array, array + m);", "        if( m != 0 ) array[0] = array[m];")]),
 ]
 
 BENIGN = [
@@ -269,4 +294,6 @@ BENIGN = [
          "std::uint32_t exp0 = 0;\n    if (ctx.my_cancellation_requested.load(std::memory_order_relaxed) || !ctx.my_cancellation_requested.compare_exchange_strong(exp0, 1)) {")]),
     dict(name='c05-b-extra-divisible-check', prop='C05', edits=[
         (PT_H, "        while( range.is_divisible() )\n            start.offer_work( split_obj, ed );", "        while( range.is_divisible() ) {\n            if (!range.is_divisible()) break;\n            start.offer_work( split_obj, ed );\n        }")]),
+    dict(name='c06-b-swap-instead-of-iter_swap', prop='C06', edits=[
+        ('include/oneapi/tbb/parallel_sort.h', "        std::iter_swap(array + j, first_element);", "        std::iter_swap(first_element, array + j);")]),
 ]
